@@ -87,6 +87,54 @@ pub fn pool(tier: &str) -> Vec<Term> {
   v
 }
 
+/// Thorough tier: every tree of a reduced E1 scope (8 leaves of every kind, all pairs of 4 of them,
+/// every single replacement over leaves and pairs, wrappers) - checked with observer prefixes of
+/// length <= 1, every single edit, and against every tree of the base pool.
+pub fn pool_extra(tier: &str) -> Vec<Term> {
+  if tier != "thorough" {
+    return vec![];
+  }
+  let o = |t: &str| Term::orig(t, &trees::file_for(t, trees::TEXTS_FULL));
+  let sms = trees::sms_leaves(&["ab\n", "a\nb"], 2, &[None, Some(K_A), Some(K_B)]);
+  let nv = trees::named_variants();
+  let leaves: Vec<Term> = vec![
+    Term::raw("a"),
+    Term::raw("a\nb"),
+    o("a;b"),
+    o("a\nb"),
+    sms[17].clone(),
+    sms[40.min(sms.len() - 1)].clone(),
+    Term::RawBuf(vec![b'a', 0xff]),
+    Term::RawStr("b\n".into()),
+    nv[nv.len() - 1].clone(),
+    crate::c09::example_combined(),
+  ];
+  let small: Vec<Term> = vec![Term::raw("a"), o("a;b"), sms[17].clone(), Term::RawBufS(b"q\n".to_vec())];
+  let sc = trees::TreeScope {
+    leaves,
+    small_leaves: small,
+    repl_contents1: vec!["", "X", "\n"],
+    repl_contents2: vec![],
+    repl_names: true,
+    repl_max_leaf: 1,
+    repl_max_composite: 1,
+    concat3: false,
+    level3: false,
+  };
+  let mut v: Vec<Term> = Vec::new();
+  let mut st = Striper::new(0, 1);
+  trees::for_each_tree(&sc, &mut st, &mut |t| {
+    if !cached_under_replace(t) {
+      v.push(t.clone());
+    }
+  });
+  v.sort();
+  v.dedup();
+  let base = pool(tier);
+  v.retain(|t| base.binary_search(t).is_err());
+  v
+}
+
 // --------------------------------------------------------------------------- observation vector
 
 #[derive(Clone, Debug, PartialEq, Eq)]
@@ -375,6 +423,22 @@ pub fn c14_worker(tier: &str, k: usize, n: usize, ctx: &mut Ctx) {
       c14_neighbours(ctx, t, &e, &kind, &pres1);
     }
   }
+  let pres0 = prefixes(0);
+  for t in &pool_extra(tier) {
+    if !st.mine() {
+      continue;
+    }
+    crate::set_current_case(t);
+    ctx.begin_case(|| serde_json::to_string(t).unwrap());
+    ctx.states += 1;
+    ctx.count("extra_pool_trees");
+    c14_tree(ctx, t, &pres1);
+    c14_staged(ctx, t);
+    for (kind, e) in edits(t) {
+      ctx.states += 1;
+      c14_neighbours(ctx, t, &e, &kind, &pres0);
+    }
+  }
   crate::clear_current_case();
 }
 
@@ -468,6 +532,23 @@ fn edit_mapspec(m: &crate::term::MapSpec, what: &str) -> Vec<(String, crate::ter
 }
 
 /// All single edits of a tree, at every node.
+/// Every replacement position of every ReplaceSource in `t` is on a char boundary of the text it
+/// wraps, or beyond its end.
+pub fn in_domain(t: &Term) -> bool {
+  match t {
+    Term::Concat { children, .. } => children.iter().all(in_domain),
+    Term::Cached(i) | Term::Boxed(i) => in_domain(i),
+    Term::Replace(i, rs) => {
+      if !in_domain(i) {
+        return false;
+      }
+      let text = model::model_text(i);
+      rs.iter().all(|r| [r.start as usize, r.end as usize].iter().all(|&p| p > text.len() || text.is_char_boundary(p)))
+    }
+    _ => true,
+  }
+}
+
 pub fn edits(t: &Term) -> Vec<(String, Term)> {
   let mut out: Vec<(String, Term)> = Vec::new();
   match t {
@@ -635,6 +716,9 @@ pub fn edits(t: &Term) -> Vec<(String, Term)> {
     Term::Cached(inner) => out.extend(edits(inner).into_iter().map(|(k, e)| (format!("cached.{k}"), Term::cached(e)))),
     Term::Boxed(inner) => out.extend(edits(inner).into_iter().map(|(k, e)| (format!("boxed.{k}"), Term::boxed(e)))),
   }
+  // an edit of an inner text may move a character boundary under an existing replacement: such a
+  // tree is outside every property's domain (replacement positions lie on char boundaries)
+  out.retain(|(_, e)| in_domain(e));
   out
 }
 
@@ -761,6 +845,39 @@ pub fn c20_worker(tier: &str, k: usize, n: usize, ctx: &mut Ctx) {
       if u != t {
         c20_pair(ctx, t, u, "independent_tree");
       }
+    }
+  }
+  let pres1 = prefixes(1);
+  for t in &pool_extra(tier) {
+    if !st.mine() {
+      continue;
+    }
+    crate::set_current_case(t);
+    ctx.begin_case(|| serde_json::to_string(t).unwrap());
+    ctx.states += 1;
+    ctx.count("extra_pool_trees");
+    let h_ref = hash_dyn(t.build().as_ref());
+    for p in &pres1 {
+      ctx.evaluations += 1;
+      match apply_prefix(t.build(), p) {
+        Ok(a) => {
+          if hash_dyn(a.as_ref()) != h_ref {
+            ctx.violation("hash_depends_on_observer_history", String::new(), None, || json!({"term": serde_json::to_value(t).unwrap(), "prefix": serde_json::to_value(p).unwrap()}), t.size(), format!("after {p:?}"));
+          }
+        }
+        Err(e) => ctx.violation("panic", e.clone(), None, || json!({"term": serde_json::to_value(t).unwrap(), "prefix": serde_json::to_value(p).unwrap()}), t.size(), e),
+      }
+    }
+    for (kind, e) in edits(t) {
+      if kind.ends_with("sms.name") || kind.ends_with("debug_id") {
+        ctx.count("edits_excluded_by_the_statement");
+        continue;
+      }
+      ctx.states += 1;
+      c20_pair(ctx, t, &e, &kind);
+    }
+    for u in &pool {
+      c20_pair(ctx, t, u, "independent_tree");
     }
   }
   crate::clear_current_case();
